@@ -139,6 +139,17 @@ def handlePos : List String → Ans
       | none => bad
   | ["legals.ord", p] => withPos p fun b =>
       (match genTrap b BB.full with | some t => t | none => showMovesOrd b.legalsList, "-")
+  -- `legals.after <pos64> <m1> [<m2> ...]`: the legal moves of the position reached by playing the moves — the model
+  -- plays them with its make-move, the specification with the rules (rights, marker and clocks of the successor are
+  -- the ones the RULES prescribe, not the ones the implementation reports): C01's quantifier is over histories
+  | "legals.after" :: p :: ms => withPos p fun b =>
+      match ms.mapM parseMove with
+      | none => bad
+      | some mvs =>
+        let mb := mvs.foldl (fun (o : Option Board) m => o.bind (fun x => x.moveNew m)) (some b)
+        let sp := mvs.foldl (fun (o : Option Position) m => o.bind (fun x => if x.legal m then some (x.apply m) else none)) (some (abs b))
+        ((match mb with | some x => showMoves x.legalsList | none => "refused"),
+         (match sp with | some x => showMoves x.legalMoves | none => "refused"))
   | ["islegal", p, m] => withPos p fun b =>
       match parseMove m with
       | some mv => (showBool (b.isLegal mv), showBool ((abs b).legal mv))
